@@ -1,6 +1,7 @@
 import SkgVerif.Lemmas.ModelsReal
 import SkgVerif.Gen.ModelsExec
 import SkgVerif.Model.SumModels
+import SkgVerif.Lemmas.SumModels
 /-!
 # C03 — theoretical models are valid bounded, monotone variogram functions
 
@@ -327,6 +328,20 @@ theorem C03_sum_two (f g : List ℝ → ℝ) (k₁ k₂ : ℕ) (ps qs : List ℝ
     rw [this, List.append_assoc, Nat.zero_add, ← hp, List.drop_left]
     rw [List.take_of_length_le]; simp [hq]
   rw [e1, e2, hg]; ring
+
+/-- any number of components: a '+'-joined model, called with the concatenated parameters of
+its components followed by one nugget, is the sum of the components (each evaluated without
+nugget) plus that single nugget — provided the last component is nugget-additive, which
+`C03_*_nugget_additive` establish for every built-in model -/
+theorem C03_sum (fs : List (List ℝ → ℝ)) (pss : List (List ℝ)) (b : ℝ)
+    (hlen : fs.length = pss.length) (hne : pss ≠ [])
+    (hadd : ∀ f ∈ fs.getLast?, ∀ ps, f (ps ++ [b]) = f ps + b) :
+    sumModel fs (pss.map List.length) (pss.flatten ++ [b]) =
+      (List.zipWith (fun f ps => f ps) fs pss).sum + b := by
+  unfold sumModel argSlices
+  have h := evalAux_spec b pss fs [] hlen
+  simp only [List.length_nil, List.nil_append] at h
+  rw [h, foldl_add_eq_sum', componentCalls_sum b fs pss hlen hne hadd]
 
 /-- non-vacuity: concrete admissible parameters -/
 example : (0:ℝ) < 30 ∧ (0:ℝ) ≤ 2 ∧ Gen.spherical 40 30 2 1 = 3 :=
